@@ -91,3 +91,62 @@ func GhostKeys() string {
 	}
 	return "ok"
 }
+
+// WrongKeyHistory: sealing a token with a key that is not its issuer's is refused — before the token was ever sealed, after it
+// was sealed with the right key, and again after that, by every sealing entry point, for constructed and decoded delegations
+// and invocations: what a read-only operation answers does not depend on what was done with the token before.
+func WrongKeyHistory() string {
+	f, err := New([]string{"a", "b"}, []string{"m"}, false)
+	if err != nil {
+		return err.Error()
+	}
+	g, err := New([]string{"a", "b"}, []string{"m"}, true)
+	if err != nil {
+		return err.Error()
+	}
+	type sealer struct {
+		name string
+		run  func(k crypto.PrivKey) error
+	}
+	for _, fx := range []*Fixture{f, g} {
+		wrong := fx.MidKey // neither the root delegation's issuer key nor the invocation's
+		cases := []struct {
+			what    string
+			right   crypto.PrivKey
+			sealers []sealer
+		}{
+			{"delegation", fx.DlgKey, []sealer{
+				{"ToSealed", func(k crypto.PrivKey) error { _, _, e := fx.Dlg.ToSealed(k); return e }},
+				{"ToSealedWriter", func(k crypto.PrivKey) error { _, e := fx.Dlg.ToSealedWriter(discard{}, k); return e }},
+				{"ToDagCbor", func(k crypto.PrivKey) error { _, e := fx.Dlg.ToDagCbor(k); return e }},
+				{"ToDagJson", func(k crypto.PrivKey) error { _, e := fx.Dlg.ToDagJson(k); return e }},
+			}},
+			{"invocation", fx.InvKey, []sealer{
+				{"ToSealed", func(k crypto.PrivKey) error { _, _, e := fx.Inv.ToSealed(k); return e }},
+				{"ToSealedWriter", func(k crypto.PrivKey) error { _, e := fx.Inv.ToSealedWriter(discard{}, k); return e }},
+				{"ToDagCbor", func(k crypto.PrivKey) error { _, e := fx.Inv.ToDagCbor(k); return e }},
+				{"ToDagJson", func(k crypto.PrivKey) error { _, e := fx.Inv.ToDagJson(k); return e }},
+			}},
+		}
+		for _, c := range cases {
+			for round := 0; round < 3; round++ {
+				for _, s := range c.sealers {
+					if s.run(wrong) == nil {
+						return fmt.Sprintf("%s.%s with a key that is not the issuer's succeeds (round %d: %s)", c.what, s.name, round,
+							map[int]string{0: "never sealed before", 1: "after it was sealed with the right key", 2: "after several sealings"}[round])
+					}
+				}
+				for _, s := range c.sealers {
+					if err := s.run(c.right); err != nil {
+						return fmt.Sprintf("%s.%s with the issuer's key fails: %v", c.what, s.name, err)
+					}
+				}
+			}
+		}
+	}
+	return "ok"
+}
+
+type discard struct{}
+
+func (discard) Write(p []byte) (int, error) { return len(p), nil }
